@@ -33,6 +33,7 @@ def toBeh (j : Json) : Except String Beh := do
   | "playerRaises" => .ok (.playerRaises (← strField j "m"))
   | "extractorRaises" => .ok (.extractorRaises (← strField j "m"))
   | "comparatorRaises" => .ok (.comparatorRaises (← strField j "m"))
+  | "unreadable" => .ok (.unreadable (← toStatus (← strField j "s")) (← strField j "m") (← strField j "err"))
   | "exit" => .ok .workerExits
   | "hang" => .ok .hang
   | "late" => .ok (.late (← toStatus (← strField j "s")) (← strField j "m"))
